@@ -4010,6 +4010,7 @@ class Wallet(object):
                                       key_path=utxo.key.path, witness_type=witness_type)
                 # FIXME: Missing locktime_cltv=locktime_cltv, locktime_csv=locktime_csv (?)
         else:
+            outpoints = []
             for inp in input_arr:
                 locktime_cltv = None
                 locktime_csv = None
@@ -4038,6 +4039,10 @@ class Wallet(object):
                     unlocking_script = b'' if len(inp) <= 5 else inp[5]
                     address = '' if len(inp) <= 6 else inp[6]
                     witness_type = self.witness_type
+                outpoint = (to_bytes(prev_txid), output_n if isinstance(output_n, TYPE_INT) else int.from_bytes(output_n, 'big'))
+                if outpoint in outpoints:
+                    raise WalletError("Input %s:%d is specified more than once" % (to_hexstring(prev_txid), outpoint[1]))
+                outpoints.append(outpoint)
                 # Get key_ids, value from Db if not specified
                 if not (key_id and value and unlocking_script_type):
                     if not isinstance(output_n, TYPE_INT):
